@@ -65,6 +65,29 @@ def r_append(ctx, rule='R02.4'):
         fns = set(b_.fn_name for (b_, _, _) in sites)
         if not ctx.floor(rule, tag, None, len(fns & {'_branch_on', '_relax'}), 2, 'functions appending edges (_branch_on and _relax)'):
             continue
+        accounted = set()
+        for n, (b, bb, E) in enumerate(sites):
+            pushp_ = b.term_point(bb)
+            near_ = b.reach(b.after(pushp_), avoid=[b.term_point(b2) for (b3, b2, _) in sites if b3 is b and b2 != bb])
+            for (pt, d, v, s_) in writes(b):
+                if pt in near_ and any(node_field(d, f_) is not None for f_ in ('best', 'value_top', 'inbound')):
+                    accounted.add((b.name, pt))
+        # the longest-path bookkeeping of a node (value_top, best, inbound) is written by an edge append and by nothing else; an arc,
+        # once created, is never rewritten (its decision and cost are the ones of the transition that created it)
+        stray, edgew = [], []
+        for b in dd_unit(ctx, tag):
+            for (pt, d, v, s_) in writes(b):
+                if any(node_field(d, f_) is not None for f_ in ('best', 'value_top', 'inbound')) and (b.name, pt) not in accounted:
+                    stray.append((b, pt, d))
+                if isinstance(d, tuple) and d and d[0] == 'field' and (d[3] or '').endswith('::Edge'):
+                    edgew.append((b, pt, d))
+        ctx.check(not stray, rule, tag + '/longest-path-fields-written-by-appends-only', stray[0][0] if stray else None, stray[0][0].loc(*stray[0][1]) if stray else '-',
+                  'value_top / best / inbound of a node are written only by the append of an arc into that node',
+                  '%s writes %s outside an edge append: value and witness edge of a node no longer describe one arc of its inbound list' % (short(stray[0][0]) if stray else '', M.show(stray[0][2])[:80] if stray else ''))
+        for r_id in (rule, 'R12.a'):
+            ctx.check(not edgew, r_id, tag + '/arcs-are-never-rewritten', edgew[0][0] if edgew else None, edgew[0][0].loc(*edgew[0][1]) if edgew else '-',
+                      'no field of an existing Edge is ever written (decision and cost stay those of the transition that created the arc)',
+                      '%s rewrites %s of an existing arc: relax() / the reported path then see a (decision, cost) pair that no transition produced' % (short(edgew[0][0]) if edgew else '', M.show(edgew[0][2])[:80] if edgew else ''))
         for n, (b, bb, E) in enumerate(sites):
             ctx.analysed_bodies.add(b.name)
             inst = '%s/%s#%d' % (tag, b.fn_name, n)
@@ -460,9 +483,11 @@ def r_squash(ctx):
                     # a marker call before/after the squash call on every path of this arm
                     mk = [b.term_point(b2) for (b2, t2) in b.calls() if (t2.get('callee') or '') in ctx.F.bodies and _ensures_lel_some(ctx.F.bodies[t2['callee']])]
                     mk += [pt for (pt, d, v, s) in writes(b) if self_field(d, 'lel') and isinstance(v, tuple) and v[0] == 'aggr' and v[2] == 'Some']
-                    r0 = b.reach([(0, 0)], avoid=mk)
+                    # `if self.lel.is_none() { self.lel = Some(..) }` written in place: the edge asserting "already Some" is as good as the write
+                    already = _cut_edges(b, lambda atoms, lit: any(opt_is(a_, lambda x: self_field(x, 'lel'), 'Some') for a_ in atoms))
+                    r0 = b.reach([(0, 0)], cut_edges=already, avoid=mk)
                     before = p not in r0
-                    r1 = b.reach(b.after(p), avoid=mk)
+                    r1 = b.reach(b.after(p), cut_edges=already, avoid=mk)
                     after_ = not any(q in r1 for q in ret_points(b))
                     marker = bool(mk) and (before or after_)
                 ctx.check(marker, 'R01.7', '%s/%s-withdraws-exactness' % (tag, kind), b, b.loc(bb),
@@ -532,7 +557,7 @@ def r_squash(ctx):
                               'is_exact := %s in %s' % (M.show(v), body.fn_name))
                 if self_field(d, 'lel'):
                     okv = (isinstance(v, tuple) and v[0] == 'aggr' and v[2] == 'None' and body.fn_name in ('_clear', 'new')) or \
-                        (isinstance(v, tuple) and v[0] == 'aggr' and v[2] == 'Some' and body.fn_name in ('_maybe_save_lel', '_finalize_cutset'))
+                        (isinstance(v, tuple) and v[0] == 'aggr' and v[2] == 'Some' and body.fn_name in ('_maybe_save_lel', '_finalize_cutset', '_squash_if_needed', '_restrict', '_relax'))
                     ctx.check(okv, 'R01.7', '%s/lel-write/%s' % (tag, short(body)), body, body.loc(*pt), 'lel is set by _maybe_save_lel / _finalize_cutset and reset by _clear only',
                               'lel := %s in %s' % (M.show(v), body.fn_name))
         # when a squash records the inexactness through `lel` only, the claim itself is computed at finalisation — on every path
@@ -550,14 +575,36 @@ def r_squash(ctx):
             fc_ = call_points(fb, '_finalize_cutset')
             good = bool(fe_) and bool(fc_) and fe_[0] not in fb.reach(fb.after(fc_[0]))
             ctx.check(good, 'R01.7', tag + '/finalize-order', fb, fb.loc(0), '_finalize_exact reads lel before _finalize_cutset fills it in', '_finalize_cutset (which sets lel) runs before _finalize_exact reads lel.is_none()')
-            ml = ctx.body(adt, '_maybe_save_lel')
-            ws = [(pt, d, v) for (pt, d, v, s) in writes(ml) if self_field(d, 'lel')]
+            # the layer recorded at the first squash (in _squash_if_needed, a helper of it, or the squash functions themselves)
+            ml = ctx.body(adt, '_squash_if_needed')
+            ws = []
+            for nm_ in ('_squash_if_needed', '_maybe_save_lel', '_restrict', '_relax'):
+                for bx_ in ctx.F.find(adt=adt, name=nm_):
+                    if bx_.name in ctx.F.bodies or nm_ == '_maybe_save_lel':
+                        for (pt, d, v, s) in writes(bx_):
+                            if self_field(d, 'lel') and not (nm_ == '_maybe_save_lel' and bx_.name not in ctx.F.bodies and any(self_field(d2, 'lel') for (p2, d2, v2, s2) in writes(ml))):
+                                ws.append((pt, d, v))
+                                if nm_ != '_squash_if_needed' and ml.fn_name == '_squash_if_needed':
+                                    ml = bx_
             good = bool(ws)
             for (pt, d, v) in ws:
                 inner = id0(v[3][0][1]) if isinstance(v, tuple) and v[0] == 'aggr' and v[2] == 'Some' else None
                 good = good and inner == ('sub', ('call', 'std::vec::Vec::<T, A>::len', (('field', ('param', ml.name, 0, 'self'), 'layers', d[3]),), None), ('const', 1, None, 'usize')) or \
                     (good and isinstance(inner, tuple) and inner[0] == 'sub' and M.is_call(inner[1], 'len') and self_field(inner[1][2][0], 'layers') and M.is_const(inner[2], 1))
             ctx.check(good, 'R08.2', tag + '/lel-is-previous-layer', ml, ml.loc(0), 'the last exact layer recorded is the previous layer (layers.len() - 1)', 'lel is not layers.len() - 1 at the first squash')
+
+
+def _layers_len(t):
+    return M.is_call(t, 'len') and self_field(t[2][0], 'layers')
+
+
+def _two_layers(a):
+    """atom asserts layers.len() >= 2"""
+    return M.cmp_matches(a, _layers_len, lambda t: M.is_const(t, 2), '>=') or M.cmp_matches(a, _layers_len, lambda t: M.is_const(t, 1), '>')
+
+
+def _fewer_than_two_layers(a):
+    return M.cmp_matches(a, _layers_len, lambda t: M.is_const(t, 2), '<') or M.cmp_matches(a, _layers_len, lambda t: M.is_const(t, 1), '<=')
 
 
 def r_deleted_sites(ctx):
@@ -970,7 +1017,7 @@ def r_thresholds(ctx):
                     form = 'value_top (cut-set node that must be explored)'
                     ok2, _, _ = M.guarded(body, [pt], lambda atoms, lit: any(a[0] == 'T' and M.is_call(a[1], 'is_cutset') and node_field(a[1][2][0], 'flags') == idx for a in atoms))
                     ctx.check(ok2, 'R09.5', tag + '/theta-value-guard', body, body.loc(*pt), 'theta = value_top only for cut-set nodes', 'theta = value_top on a node that is not in the cut-set')
-                elif M.is_const(inner) and (inner[2] or '').endswith('MAX'):
+                elif is_max_const(inner):
                     form = 'MAX (exact node without threshold)'
                     ok2, _, _ = M.guarded(body, [pt], lambda atoms, lit: any(a[0] == 'T' and M.is_call(a[1], 'is_exact') and node_field(a[1][2][0], 'flags') == idx for a in atoms))
                     ok3, _, _ = M.guarded(body, [pt], lambda atoms, lit: any(opt_is(a, lambda x: nf(x, 'theta'), 'None') for a in atoms))
@@ -1355,8 +1402,19 @@ def r_cutset(ctx):
                                 is_root = lambda x: M.is_const(x, 0) or M.contains(x, lambda y: M.is_field(y, 'residual', 'CompilationInput')) or self_field(x, 'root')
                                 if (is_id(ts[0]) and is_root(ts[1])) or (is_id(ts[1]) and is_root(ts[0])):
                                     root_test = True
-            ctx.check(root_test, 'R08.3', tag + '/root-test', fb, fb.loc(0),
-                      'a diagram whose pool keeps un-impacted nodes across layers tests for the compilation root on cut-set admission/emission',
+            # accepted alternative (the repair of D4): no long arc leaves the root or one of its children — a pool node may skip a layer
+            # (the candidate filter answers false) only on an edge asserting that at least two layers are recorded. With the
+            # first-layer-not-squashed guard (same rule id) and "a layer is recorded only when non-empty" (R15.3), every child of the root is
+            # expanded in the never-squashed layer below the root and has left the pool before any merged node exists: the root keeps
+            # exact children only and cannot be admitted to the frontier.
+            eager_top = False
+            mv_ = ctx.body(adt, '_move_to_next_layer')
+            flt_ = [c_ for c_ in ctx.unit(mv_) if c_.calls_to('Problem::is_impacted_by')]
+            if flt_:
+                eager_top = all(returns_value_only_if(c_, False, lambda atoms: any(_two_layers(a_) for a_ in atoms)) for c_ in flt_)
+            how_ = 'the cut-set construction tests for the compilation root' if root_test else 'no pool node skips a layer before two layers are recorded (the root and its children are developed right away)'
+            ctx.check(root_test or eager_top, 'R08.3', tag + '/root-test', fb, fb.loc(0),
+                      'a diagram whose pool keeps un-impacted nodes across layers protects the compilation root: ' + how_,
                       '%s keeps nodes in its pool across layers (is_impacted_by) but neither the squash guard nor the cut-set construction tests for the compilation root: '
                       'a lingering child of the root can be merged (or receive an inexact arc) and the root itself enters the cut-set — no progress (D4)' % tag)
         else:
@@ -1422,7 +1480,9 @@ def r_best_nodes(ctx):
                 if what == 'value':
                     good = node_field(crt, 'value_top') is not None and node_field(crt, 'value_top') == id0(pay)
                 else:
-                    good = M.is_call(crt, '_best_path') and crt[2][1] == pay
+                    # the best path of THAT node, prefixed by path_to_root (through the `_best_path` helper or directly)
+                    good = (M.is_call(crt, '_best_path') and crt[2][1] == pay) or \
+                        (M.is_call(crt, '_best_path_partial_borrow') and crt[2][0] == pay and self_field(crt[2][1], 'path_to_root') and self_field(crt[2][2], 'nodes') and self_field(crt[2][3], 'edges'))
             ctx.check(good, 'R02.5', '%s/%s' % (tag, fn), b, b.loc(0), '%s = %s.map(|id| %s of that node)' % (fn, fld, 'value_top' if what == 'value' else 'best path'),
                       '%s returns %s' % (fn, M.show(rt)[:200]))
         for (tr, fn) in (('best_value', '_best_value'), ('best_solution', '_best_solution'), ('best_exact_value', '_best_exact_value'), ('best_exact_solution', '_best_exact_solution'), ('drain_cutset', '_drain_cutset')):
@@ -1430,10 +1490,12 @@ def r_best_nodes(ctx):
             cs = b.calls_to(fn)
             good = len(cs) == 1 and (tr == 'drain_cutset' or M.is_call(_ret_term(b), fn))
             ctx.check(good, 'R02.5', '%s/trait-%s' % (tag, tr), b, b.loc(0), 'DecisionDiagram::%s delegates to %s' % (tr, fn), 'DecisionDiagram::%s does not delegate to %s' % (tr, fn))
-        bp = ctx.body(adt, '_best_path')
-        rt = _ret_term(bp)
-        good = M.is_call(rt, '_best_path_partial_borrow') and M.is_param(rt[2][0], index=1) and self_field(rt[2][1], 'path_to_root') and self_field(rt[2][2], 'nodes') and self_field(rt[2][3], 'edges')
-        ctx.check(good, 'R02.5', tag + '/_best_path', bp, bp.loc(0), '_best_path(id) = partial_borrow(id, path_to_root, nodes, edges)', '_best_path returns %s' % M.show(rt))
+        for bp in ctx.F.find(adt=adt, name='_best_path'):
+            if bp.name not in ctx.F.bodies:
+                continue        # inlined at every call site: judged there
+            rt = _ret_term(bp)
+            good = M.is_call(rt, '_best_path_partial_borrow') and M.is_param(rt[2][0], index=1) and self_field(rt[2][1], 'path_to_root') and self_field(rt[2][2], 'nodes') and self_field(rt[2][3], 'edges')
+            ctx.check(good, 'R02.5', tag + '/_best_path', bp, bp.loc(0), '_best_path(id) = partial_borrow(id, path_to_root, nodes, edges)', '_best_path returns %s' % M.show(rt))
         pb = ctx.body(adt, '_best_path_partial_borrow')
         # sol starts as root_pa, edge_id starts at nodes[id].best, then pushes edge.decision and moves to nodes[edge.from].best
         so = pb.calls_to('to_owned', 'to_vec', 'extend_from_slice')
@@ -1767,11 +1829,16 @@ def r_pooled_layers(ctx):
     ctx.check(M.is_param(a[1], index=2) and a[1][1] == mv.name and idx is not None and M.is_param(idx[1], index=1) and idx[1][1] == c.name, 'R15.1', 'impact-query', c, c.loc(bb),
               'is_impacted_by(var of this layer, state of the candidate node)', 'is_impacted_by receives (%s, %s)' % (M.show(a[1]), M.show(a[2])))
     imt = c.origin.call(t, c.term_point(bb))
-    impacted = lambda atoms, lit: any(a_[0] == 'T' and a_[1] == imt for a_ in atoms)
+    # a node is developed when the variable impacts its state — or, whatever the answer, while fewer than two layers are recorded (the
+    # root and its children never skip a layer: R08.3)
+    impacted = lambda atoms, lit: any((a_[0] == 'T' and a_[1] == imt) or _fewer_than_two_layers(a_) for a_ in atoms)
     trues = [(b2, i) for (b2, i, s) in c.assigns(lambda s: s['place']['l'] == 0 and not s['place']['p'] and s['rv']['k'] == 'use' and s['rv']['op'].get('const', {}).get('bool') is True)]
-    ok = returns_value_only_if(c, True, lambda atoms: any(a_[0] == 'T' and a_[1] == imt for a_ in atoms))
-    ctx.check(ok, 'R15.1', 'expand-only-impacted', c, c.loc(*trues[0]) if trues else c.loc(bb), 'a pool node joins the layer (closure answers true) only when the variable impacts its state',
-              'a node can join the layer although is_impacted_by answered false')
+    ok = returns_value_only_if(c, True, lambda atoms: any((a_[0] == 'T' and a_[1] == imt) or _fewer_than_two_layers(a_) for a_ in atoms))
+    ctx.check(ok, 'R15.1', 'expand-only-impacted', c, c.loc(*trues[0]) if trues else c.loc(bb), 'a pool node joins the layer (closure answers true) only when the variable impacts its state (or at the top of the diagram)',
+              'a node can join the layer although is_impacted_by answered false (and two layers are already recorded)')
+    # ... and it IS developed whenever the variable impacts it (skipping an impacted node loses its decisions)
+    ok = returns_value_only_if(c, False, lambda atoms: any(a_[0] == 'F' and a_[1] == imt for a_ in atoms))
+    ctx.check(ok, 'R15.1', 'impacted-is-expanded', c, c.loc(bb), 'a pool node skips the layer only when is_impacted_by answered false', 'a node the variable impacts can be left in the pool (skipped)')
     # the removal list is filled on the impacted branch only, and the pool loses exactly the members of that list
     rp = [(b2, t2) for (b2, t2) in c.calls_to('push')]
     good = bool(rp)
